@@ -529,7 +529,8 @@ fn run_fsm_with(label: &str, ops: Vec<Op>, depth: usize, budget_s: f64, report: 
         let bad: Mutex<Vec<(Vec<Op>, String)>> = Mutex::new(Vec::new());
         par_for_each(std::mem::take(&mut level), threads, &stop, |_, hist| {
             for &op in &ops {
-                if dl.expired() {
+                // the first three levels do not depend on the machine's speed
+                if d >= 3 && dl.expired() {
                     stop.store(true, Ordering::Relaxed);
                     return;
                 }
